@@ -70,6 +70,15 @@ def mk_particle(spec):
 
 
 def mk_events(case):
+    if case.get("alias"):
+        # resampled input: events with the same specification are one and the same list object
+        seen, out = {}, []
+        for ev in case["events"]:
+            k = json.dumps(ev, sort_keys=True)
+            if k not in seen:
+                seen[k] = [mk_particle(s) for s in ev]
+            out.append(seen[k])
+        return out
     return [[mk_particle(s) for s in ev] for ev in case["events"]]
 
 
@@ -273,7 +282,14 @@ def gen_case(rng):
                     s["obs"]["mt"] = abs(s["obs"]["y"]) if rng.random() < 0.8 else s["obs"]["y"]
         if rng.random() < 0.04:
             evs = []
-        return {"kind": "yield", "method": method, "bins": bins, "events": evs}
+        case = {"kind": "yield", "method": method, "bins": bins, "events": evs}
+        if len(evs) >= 2 and rng.random() < 0.2:
+            # the same event object several times in the sample (bootstrap resampling), e.g. the last one also earlier
+            evs[rng.randrange(len(evs) - 1)] = json.loads(json.dumps(evs[-1]))
+            if rng.random() < 0.5:
+                evs.append(json.loads(json.dumps(evs[0])))
+            case["alias"] = True
+        return case
     w = rng.choice([1.0, 1.0, 0.5, 2.0, 3.0, 0.25, 4])
     if rng.random() < 0.05:
         w = rng.choice([0.0, -1.0])
@@ -438,6 +454,7 @@ def correspondence(ctx, model_ok=True):
                    "and a non-zero result; distinct by canonical JSON",
            "samples": cases[:3], "model_runner": "Eval vm_compute in generated cases files (sharded coqc), comparison by Model/BulkCheck.v",
            "failures": [], "broken": []}
+    out["all_cases"] = cases          # the driver runs the property oracle on these as well
     ok, log = C.make(["Model/BulkCheck.vo"])
     if not ok:
         out["broken"].append({"what": "model Model/Bulk.v / Model/BulkCheck.v does not build", "detail": log[-800:]})
